@@ -25,7 +25,10 @@ BasisViol(ev) ==
    LET k == ev.k  j == ev.j
        nw == IF Has(ev, "nw") THEN ev.nw ELSE 16
        linv == GfInv(L(k, j, k))
-       want == [r \in 1..ev.m |-> LET c == GfMul(L(k, j, k + r - 1), linv) IN [i \in 1..nw |-> GfMul(c, 2^((i-1) % 16))]]
+       pat == IF Has(ev, "pat") THEN ev.pat ELSE 0
+       \* which data words of column j are non-zero (0-based word index x): all; only the last; the second half; two late ones
+       On(x) == CASE pat = 0 -> TRUE [] pat = 1 -> x = nw - 1 [] pat = 2 -> x >= nw \div 2 + 1 [] OTHER -> x = nw - 1 \/ x = nw \div 2 + 2
+       want == [r \in 1..ev.m |-> LET c == GfMul(L(k, j, k + r - 1), linv) IN [i \in 1..nw |-> IF On(i-1) THEN GfMul(c, 2^((i-1) % 16)) ELSE 0]]
    IN IF ev.flen # 80 + 2 * nw THEN {"C04 payload of a basis encode is not the data length / k"}
       ELSE IF ev.par # want THEN {"C04 parity words of a basis encode differ from coefficient * 2^i"} ELSE {}
 Viol(ev) ==
@@ -33,7 +36,7 @@ Viol(ev) ==
      [] ev.e = "Basis" -> BasisViol(ev)
      [] ev.e = "Lin" -> IF ev.ok # 1 THEN {"C04 encode is not GF(2)-linear"} ELSE {}
      [] ev.e = "Fault" -> {"fault: " \o ev.how}
-     [] ev.e = "Create" -> IF ev.rc <= 0 THEN {"create failed in a sweep"} ELSE {}
+     [] ev.e = "Create" -> IF ev.rc <= 0 /\ (~Has(ev, "wnat") \/ ev.wnat = 1) THEN {"create failed in a sweep"} ELSE {}
      [] ev.e = "Enc" -> IF ev.rc # 0 THEN {"encode failed in a sweep"} ELSE {}
      [] OTHER -> {}
 Init == l = 1
